@@ -59,6 +59,30 @@ def run(prog: Program, res: Result) -> None:
                     and n.value.id not in ("TaskType", "np", "math"))
                for n in ast.walk(cf.node) if isinstance(n, ast.Attribute))
     res.ob(pure, f"{cf.loc()} calculate_fitness depends on its arguments only", "calculate_fitness")
+    # ... and scores the cost in the user's sign: under MAX its value is what it returns under MIN for the negated argument
+    # (internal costs of a maximisation task are negated; a reported agent carries the user-sign cost and this fitness)
+    from ..sgn import MAX as _MAX, MIN as _MIN, Unknown as _SUnk, _subst as _ssub, eval_function as _evf
+    vparam, dparam = (cf.params + [None, None])[:2]
+    try:
+        rmin = _evf(cf.node, {dparam}, _MIN)
+        rmax = _evf(cf.node, {dparam}, _MAX)
+        if len(rmin) == 1 and len(rmax) == 1 and rmin[0] is not None and rmax[0] is not None:
+            neg = ast.UnaryOp(op=ast.USub(), operand=ast.Name(id=vparam, ctx=ast.Load()))
+            want = _ssub(rmin[0], {vparam: neg})
+            okf = norm(want, 600) == norm(rmax[0], 600)
+            same = norm(rmin[0], 600) == norm(rmax[0], 600)
+            res.ob(okf, f"{cf.loc()} calculate_fitness(v, MAX) == calculate_fitness(-v, MIN)", "calculate_fitness:direction")
+            if not okf and same:
+                res.add(Finding(P, "C02.R1-root-fitness", "helpers.calculate_fitness::direction", cf.loc(),
+                                "calculate_fitness ignores the task direction: for a maximisation task the fitness is computed from the "
+                                "internal (negated) cost, so it is not the fitness of the cost the agent reports"))
+            elif not okf:
+                res.errors.append(f"{cf.loc()} calculate_fitness: the MAX branch `{norm(rmax[0], 80)}` is not the MIN branch applied to "
+                                  f"the negated value (undecided)")
+        else:
+            res.errors.append(f"{cf.loc()} calculate_fitness: several return paths under a fixed direction (undecided)")
+    except _SUnk as exc:
+        res.errors.append(f"{cf.loc()} calculate_fitness: {exc} (undecided)")
     if not pure:
         res.add(Finding(P, "C02.R1-root-fitness", "helpers.calculate_fitness::purity", cf.loc(),
                         "calculate_fitness reads state other than (value, task_type)"))
@@ -105,6 +129,7 @@ _ANCHOR = "        leader_position = np.array(self._best_agent.position)\n"
 _REFB = ("        def refine_best_solution(a: Agent, tt: TaskType) -> Agent:\n            if tt == TaskType.MIN:\n                return a\n"
          "            # return the agent with the position multiplied by -1\n            return a.model_copy(update={\"cost\": -a.cost})")
 VARIANTS = [
+    V("fitness-ignores-direction", "pyvolutionary/helpers.py", "    value = value if task_type == TaskType.MIN else -value\n", "", "C02.R1-root-fitness"),
     V("solve-replaces-nonfinite", "pyvolutionary/models.py", "        return self.objective_function(solution)",
       "        value = self.objective_function(solution)\n        if not isinstance(value, list) and not np.isfinite(value):\n            return float(np.finfo(float).max)\n        return value", "C02.chain.solve-returns"),
     V("twin-solve-through-local", "pyvolutionary/models.py", "        return self.objective_function(solution)",
